@@ -611,6 +611,12 @@ let run_case (prof : profile) (line : string) : string =
   | "spec_tn" -> let s = hex t in if not (Utf8.utf8_valid s) then "notutf8" else sb (SpecTopic.Spec.topic_name_ok s)
   | "spec_tf" -> let s = hex t in if not (Utf8.utf8_valid s) then "notutf8" else
       Printf.sprintf "%s,%s" (sb (SpecTopic.Spec.topic_filter_ok s)) (sn (SpecTopic.Spec.share_sep s))
+  | "willdec" ->
+    let d = hex t in
+    (match M5.will_decode (n_of_int 1) false TEof d with
+     | ROk (w, rest) -> Printf.sprintf "res=ok;inv=%s;used=%d" (if Valid.I5.will_inv w then "ok" else "fail:model") (blen d - blen rest)
+     | RErr e -> Printf.sprintf "res=err %s;inv=-;used=?" (serr e)
+     | RPanic _ -> "res=PANIC;inv=-;used=?")
   | "proto" -> let nm = hex t in let lvl = num t in sout sproto (Types.protocol_new nm lvl)
   | "protoenc" -> let p = proto t in hx (L.concat (Types.protocol_enc p)) ^ " " ^ sn (Types.protocol_len p)
   | "code" ->
